@@ -157,10 +157,39 @@ Definition class_scalar (c : class) : bool :=
   && forallb meth_scalar (c_methods c).
 Definition all_names_scalar (M : mappings) : bool := forallb class_scalar (ms_classes M).
 
-(* write_string / write_vec.  Ok t: the text;  Err: no text is produced (the panic described above;
-   writing into a Vec has no other failure) *)
+(* check_field / check_desc / check_names / check_fields (after the repairs of round 5): before anything
+   is written, `write` walks over every namespace, name and descriptor and fails (anyhow error) if one of
+   them contains a TAB or a LF or ends with a CR — the field would not be read back as it is —
+   and if a descriptor holds an unpaired surrogate (it would be written as U+FFFD, see [lossy]). *)
+Definition no_tab_lf (s : str) : bool := forallb (fun c => negb (N.eqb c cTAB) && negb (N.eqb c cLF)) s.
+Fixpoint ends_cr (s : str) : bool :=
+  match s with
+  | [] => false
+  | [c] => N.eqb c cCR
+  | _ :: s' => ends_cr s'
+  end.
+(* check_field *)
+Definition cell_ok (s : str) : bool := no_tab_lf s && negb (ends_cr s).
+(* check_desc *)
+Definition desc_ok (s : str) : bool := cell_ok s && scalar_only s.
+(* check_names: the names that are present *)
+Definition names_checked (l : names) : bool := forallb (fun o => cell_ok (cell_str o)) l.
+Definition meth_checked (m : meth) : bool :=
+  desc_ok (m_desc m) && names_checked (m_names m) && forallb (fun p => names_checked (p_names p)) (m_params m).
+Definition field_checked (f : field) : bool := desc_ok (f_desc f) && names_checked (f_names f).
+Definition class_checked (c : class) : bool :=
+  names_checked (c_names c) && forallb field_checked (c_fields c) && forallb meth_checked (c_methods c).
+(* check_fields *)
+Definition fields_checked (M : mappings) : bool := forallb cell_ok (ms_ns M) && forallb class_checked (ms_classes M).
+
+(* the sets the writer writes: every field passes the check, and no name makes Display fail *)
+Definition writable (M : mappings) : bool := fields_checked M && all_names_scalar M.
+
+(* write_string / write_vec.  Ok t: the text;  Err: no text is produced — the error of check_fields, or
+   (for a set that passes it) the panic described above; writing into a Vec has no other failure.
+   [C03.Run.write_res] tells the two apart for the correspondence. *)
 Definition write (M : mappings) : res text :=
-  if all_names_scalar M then Ok (unlines (write_lines M)) else Err.
+  if writable M then Ok (unlines (write_lines M)) else Err.
 
 (* ------------------------------------------------------------------------------------------ *)
 (* read: lines                                                                                 *)
@@ -406,24 +435,17 @@ Definition read (n : nat) (t : text) : res mappings :=
 (* ------------------------------------------------------------------------------------------ *)
 (* decidable hypotheses of the round-trip theorems (beside [wf] of Quill/Mappings.v)           *)
 
-(* a cell of a line: no TAB (ends the cell), no LF (ends the line), and no CR at the very end
-   (a cell that is last in its line would lose it to the line reader) *)
-Definition no_tab_lf (s : str) : bool := forallb (fun c => negb (N.eqb c cTAB) && negb (N.eqb c cLF)) s.
-Fixpoint ends_cr (s : str) : bool :=
-  match s with
-  | [] => false
-  | [c] => N.eqb c cCR
-  | _ :: s' => ends_cr s'
-  end.
-Definition cell_ok (s : str) : bool := no_tab_lf s && negb (ends_cr s).
+(* a cell of a line ([cell_ok], defined with the writer's check above): no TAB (ends the cell), no LF
+   (ends the line), and no CR at the very end (a cell that is last in its line would lose it to the
+   line reader) *)
 
 (* a name: a cell, made of scalar values (else it cannot be written as UTF-8), accepted by the
    name type's check_valid (the reader goes through the checked constructors) *)
 Definition name_ok (valid : str -> bool) (s : str) : bool := cell_ok s && scalar_only s && valid s.
 Definition names_textual (valid : str -> bool) (l : names) : bool :=
   forallb (fun o => match o with Some s => name_ok valid s | None => true end) l.
-(* descriptors are not validated by the reader (FieldDescriptor::check_valid accepts everything) *)
-Definition desc_ok (s : str) : bool := cell_ok s && scalar_only s.
+(* descriptors are not validated by the reader (FieldDescriptor::check_valid accepts everything);
+   [desc_ok] is the writer's check_desc above *)
 
 Definition textual_param (p : param) : bool :=
   N.ltb (p_index p) usize_max1 && names_textual is_valid_unqualified_name (p_names p).
@@ -437,3 +459,17 @@ Definition textual_class (c : class) : bool :=
 (* no condition on comments: every string is escaped into a cell *)
 Definition textual (M : mappings) : bool :=
   forallb cell_ok (ms_ns M) && forallb textual_class (ms_classes M).
+
+(* what the TYPES of a quill tree guarantee, whatever the strings are: every name passed the check_valid of its
+   type (the checked constructors; a tree that fails this needs `from_inner_unchecked`), a parameter index is a usize *)
+Definition names_typed (valid : str -> bool) (l : names) : bool :=
+  forallb (fun o => match o with Some s => valid s | None => true end) l.
+Definition typed_param (p : param) : bool :=
+  N.ltb (p_index p) usize_max1 && names_typed is_valid_unqualified_name (p_names p).
+Definition typed_field (f : field) : bool := names_typed is_valid_unqualified_name (f_names f).
+Definition typed_meth (m : meth) : bool :=
+  names_typed is_valid_method_name (m_names m) && forallb typed_param (m_params m).
+Definition typed_class (c : class) : bool :=
+  names_typed is_valid_obj_class_name (c_names c)
+  && forallb typed_field (c_fields c) && forallb typed_meth (c_methods c).
+Definition typed (M : mappings) : bool := forallb typed_class (ms_classes M).
